@@ -154,13 +154,14 @@ add(
 
 add(
     "C13",
-    "exhaustive byte-offset enumeration of write cuts per generated file + generated multi-cut schedules (Hypothesis); harness owns the writer and the poll clock",
+    "exhaustive byte-offset enumeration of write cuts per generated file + generated multi-cut schedules (Hypothesis) + coverage-guided fuzzing of the readers (atheris/libFuzzer) with the same oracle in the target; harness owns the writer and the poll clock",
     "For generated LAMMPS dumps, CP2K xyz files and TRR files (both byte orders/precisions, independent struct encoder) every single byte "
     "offset (TRR: every stride-th) is used as a partial write, plus multi-cut schedules slid over the file: the reader is polled as the "
     "engines poll it (ReadAndProcessOnTheFly per poll; GromacsRunner.get_gromacs_frames with a stub process whose poll() and the module sleep "
     "are owned by the harness, so no wall clock). Oracle: no exception, cumulative frames are a prefix of the written frames with exactly the "
     "written values, never more than the frames whose data bytes are on disk, all frames within two polls after the writer finished. "
-    "Exhaustive over single cuts of the generated files; files and multi-cut schedules are sampled.",
+    "Exhaustive over single cuts of the generated files; files and multi-cut schedules are sampled. An atheris campaign (4000 / 150000 executions, "
+    "-seed from VERIF_SEED, empty corpus, coverage of infretis' reader modules) decodes bytes into (format, trajectory, up to 8 cuts, idle polls) and applies the same oracle.",
     "The writer finishes normally (complete final file). No per-poll lower bound is demanded (the LAMMPS reader may spend a poll on a lone newline; callers tolerate it).",
 )
 
